@@ -34,9 +34,9 @@ type Case struct {
 	HeaderKind string `json:"header_kind"` // none | integer | array | string | object
 	// HeaderExplode: the explode field of the declared header: "" (absent: false) | "true" | "false"
 	HeaderExplode string `json:"header_explode,omitempty"`
-	HeaderVal  string `json:"header_val"`  // JSON value of the extra declared header X-V (when present)
-	HeaderSent bool   `json:"header_sent"`
-	HeaderReq  bool   `json:"header_required"`
+	HeaderVal     string `json:"header_val"` // JSON value of the extra declared header X-V (when present)
+	HeaderSent    bool   `json:"header_sent"`
+	HeaderReq     bool   `json:"header_required"`
 	// content
 	Schema  string `json:"schema"` // JSON schema of application/json content ("" = no content declared)
 	Body    string `json:"body"`   // JSON text of the body value
